@@ -631,7 +631,17 @@ func Int2BV(a *Term, w int) *Term {
 	if a.Op == "bv2nat" && a.Args[0].Sort.Width == w {
 		return a.Args[0]
 	}
-	return P.intern(&Term{Op: "int2bv", Args: []*Term{a}, Sort: BVSort(w)})
+	// symbolic conversion: exact for small non-negative values (the shift counts and indices that occur
+	// in the code), an uninterpreted function elsewhere (over-approximation, avoids the solver's int2bv cliff)
+	r := App(fmt.Sprintf("int2bv.%d", w), BVSort(w), a)
+	lim := 16
+	if w < 8 {
+		lim = 1 << uint(w) - 1
+	}
+	for k := lim; k >= 0; k-- {
+		r = Ite(Eq(a, IntC(int64(k))), BVC(uint64(k), w), r)
+	}
+	return r
 }
 
 // ----- arrays -----
